@@ -34,6 +34,65 @@ def check_toy_binary(sc):
     return _check(sc, mass=True, moments=False)
 
 
+def check_clamp(case):
+    """The one permitted deviation: a state whose precipitates hold more solute than the alloy contains (what an over-shooting
+    step hands to the model) must be recorded with the matrix composition clamped to the configured minimum - not to 0, not
+    left negative.  The state is produced by scaling the distribution a normal run has reached and handing it to the model
+    through the calls the solver makes for one explicit step (preProcess, getdXdt at the current state, postProcess with the new one)."""
+    import numpy as np
+    out = Out()
+    sc = case["sc"]
+    res = H.run(sc)
+    m = res["model"]
+    pd = m.pData
+    n = pd.n
+    # content of the distribution the model holds now (classes removed after the last record no longer count)
+    pp, pb = m.precipitateParameters[0], m.PBM[0]
+    ratio = m.matrixParameters.volume.Vm / pp.volume.Vm
+    psd = np.array(pb.PSD, dtype=float)
+    psd[: int(m.RdrivingForceIndex[0]) + 1] = 0
+    psd[pb.PSDsize < m.constraints.minRadius] = 0
+    fv = float(ratio * pp.nucleation.volumeFactor * np.sum(psd * pb.PSDsize ** 3))
+    fc = fv * float(sc["phases"][0]["xb"])
+    x0 = float(np.atleast_1d(pd.composition[0])[0])
+    if not (fc > 0 and 0 < fv < 0.5):
+        out.label("no_precipitates_to_scale")
+        return out
+    s = case["over"] * x0 / fc                   # precipitate content becomes over * x0 > x0
+    if fv * s >= 0.95:
+        out.label("scaled_fraction_too_large")
+        return out
+    x = [np.array(pb.PSD, dtype=float) * s for pb in m.PBM]
+    t_next = float(pd.time[n]) * (1 + 1e-6) + 1e-9
+    import io, sys
+    so = sys.stdout
+    sys.stdout = io.StringIO()
+    try:
+        # the solver's protocol for one explicit step: preProcess, derivative at the current state, postProcess with the new state
+        m.preProcess()
+        m.getdXdt(float(pd.time[n]), [np.array(pb_.PSD, dtype=float) for pb_ in m.PBM])
+        m.postProcess(t_next, x)
+    finally:
+        sys.stdout = so
+    got = float(np.atleast_1d(m.pData.composition[m.pData.n])[0])
+    minc = float((sc.get("constraints") or {}).get("minComposition", 0))
+    out.label("clamp_forced", "minComposition_%s" % ("set" if minc else "default"))
+    if got != minc:
+        out.fail("clamp_value", "precipitates scaled to hold %.3f x the alloy content: recorded matrix composition %r, configured minimum composition %r" % (case["over"], got, minc))
+    out.nt(minc > 0)
+    return out
+
+
+@st.composite
+def _clamp_case(draw):
+    sc = draw(scen.toy_binary_scenario(cap=120, max_phases=1, undersat=False, allow_profile=False))
+    c = dict(sc.get("constraints") or {})
+    if draw(st.integers(0, 3)) > 0:
+        c["minComposition"] = 10 ** draw(st.floats(-12, -6))
+    sc["constraints"] = c
+    return {"sc": sc, "over": draw(st.floats(1.01, 3.0))}
+
+
 def pred_sentinel(case, v):
     """All size classes of a phase are unstable (interfacial-composition sentinel -1 everywhere) while nuclei are
     placed in its last class: the sentinel is then used as the precipitate composition.  Envelope: the deviation
@@ -57,6 +116,9 @@ PREDICATES = {"sentinel_composition_in_populated_class": pred_sentinel, "composi
 
 def clauses():
     return [
+        Clause("clamp", _clamp_case, check_clamp, quick=40, thorough=600, shrink=False,
+               rule="generator: toy binary single-phase run (cap 120 steps), then the reached distribution scaled so that the precipitates hold 1.01-3 times the alloy content and handed to the model as the new state of one explicit step (preProcess, getdXdt, postProcess); minimum composition configured (3 in 4) or default; "
+                    "oracle: the recorded matrix composition is exactly the configured minimum (the documented clamp); non-trivial: a non-default minimum"),
         Clause("toy_binary", lambda: scen.toy_binary_scenario(cap=400, allow_elastic=True, allow_kbeta=True), check_toy_binary, quick=240, thorough=4000, shrink=False,
                rule="generator: toy binary scenarios (1-3 phases, stoichiometric or (1 in 3) with a precipitate composition that depends on the Gibbs-Thomson energy and is then taken per class from the model's table snapshot, mean of the class edges; alloy inside/outside the two-phase field, T constant / break points / function, gamma, V_alpha/V_beta in [0.5,2] given as Vm/Va/a, five site types, four shapes, constant strain energy, PBM grid, adaptive on/off, constraint toggles, Euler/RK4, 1-3 solve calls, cap 400 steps); "
                     "oracle per accepted step: x0 = (1-sum f) x_matrix + sum_p ratio_p F_p sum_i n_i R_i^3 x_beta; non-trivial: total precipitate fraction > 1e-6 on >= 10 steps"),
